@@ -200,6 +200,12 @@ pub fn drive(i: &mut Interpreter, log: &Log, first: Result<StepResult, JsError>,
                     o.status = "stuck".into();
                     break;
                 }
+                // the suspension window counts as a host step: a forced collection may fall between the
+                // suspending step and the resuming one
+                n += 1;
+                if p.collect_every || p.collect_after.contains(&n) {
+                    i.collect();
+                }
                 let resp: Vec<OrderResponse> = pending.iter().map(|x| OrderResponse { id: x.id,
                     result: Ok(RuntimeValue::unguarded(JsValue::from(format!("v{}", x.id.0)))) }).collect();
                 i.fulfill_orders(resp);
